@@ -493,6 +493,11 @@ impl<T: RealNumber> DecisionTreeClassifier<T> {
 
         if mtry < n_attr {
             variables.shuffle(rng);
+            #[cfg(feature = "verif-hooks")]
+            crate::verif_hooks::reshuffle(
+                crate::verif_hooks::Draw::TreeFeatureShuffle,
+                &mut variables,
+            );
         }
 
         for variable in variables.iter().take(mtry) {
